@@ -390,6 +390,52 @@ class MTree:
             p.children = scan(p.children)
         return Ok(("none",), removed=removed)
 
+    def filter_verdicts(self, p: MNode | None, verdicts: dict):
+        """In-place filter with the full verdict vocabulary (C08 definition):
+        T keep+scan, F/N scan (keep iff a descendant is kept), K skip branch, Z keep node only,
+        S keep whole branch, X stop: end the scan, keep what was accepted so far."""
+        removed = []
+        stopped = [False]
+
+        def scan(K):
+            out = []
+            for c in K:
+                if stopped[0]:
+                    removed.extend(self.branch(c))
+                    continue
+                v = verdicts.get(c.uid, "F")
+                if v == "X":
+                    stopped[0] = True
+                    removed.extend(self.branch(c))
+                elif v == "T":
+                    c.children = scan(c.children)
+                    out.append(c)
+                elif v in ("F", "N"):
+                    sub = scan(c.children)
+                    if sub:
+                        c.children = sub
+                        out.append(c)
+                    else:
+                        # everything below was already collected by the recursive scan
+                        c.children = []
+                        removed.append(c)
+                elif v == "S":
+                    out.append(c)
+                elif v == "K":
+                    removed.extend(self.branch(c))
+                elif v == "Z":
+                    for k in c.children:
+                        removed.extend(self.branch(k))
+                    c.children = []
+                    out.append(c)
+            return out
+
+        if p is None:
+            self.top = scan(self.top)
+        else:
+            p.children = scan(p.children)
+        return Ok(("none",), removed=removed)
+
     # -- index access (C09 table) ------------------------------------------------------------
     def resolve_key(self, key, real_node_ids: dict):
         """real_node_ids: uid -> node_id of the bound real node."""
